@@ -281,12 +281,13 @@ def fix_digest(wire: bytes) -> bytes:
     return wire[:i] + h.digest() + wire[i + 32:]
 
 
-def interest_wire(form: str, integrity: str, target: str) -> tuple[bytes, bytes | None]:
+def interest_wire(form: str, integrity: str, target: str, lifetime: int = 4000) -> tuple[bytes, bytes | None]:
     """returns (wire, app_param as the handler must see it)"""
-    p = enc.InterestParam(nonce=0x11223344, lifetime=4000)
+    p = enc.InterestParam(nonce=0x11223344, lifetime=lifetime)
     if form == 'plain':
         return bytes(enc.make_interest(target, p)), None
-    ap = b'hello' if form in ('param', 'signed') else None
+    # 'param-empty': ApplicationParameters present with a zero-length value and no signature (24 00): parameters all the same
+    ap = b'hello' if form in ('param', 'signed') else (b'' if form == 'param-empty' else None)
     signer = DigestSha256Signer(for_interest=True) if form.startswith('signed') else None
     wire = bytes(enc.make_interest(target, p, ap, signer=signer))
     seen_ap = ap if ap is not None else b''
@@ -395,7 +396,7 @@ async def _drive_interest(rig, case, out):
         rig.app.set_interest_filter(in_force, mk_handler(in_force), route_val)
         rig.app.set_interest_filter(other, mk_handler(other), other_val)
 
-    wire, seen_ap = interest_wire(case['form'], case['integrity'], target)
+    wire, seen_ap = interest_wire(case['form'], case['integrity'], target, case.get('int_lifetime', 4000))
     try:
         iname = [bytes(c) for c in enc.parse_interest(wire)[0]]
     except Exception:  # noqa: an Interest the codec refuses cannot reach a handler either; nothing to compare the name to
@@ -415,8 +416,13 @@ async def _drive_interest(rig, case, out):
 
     exp = expected_interest(case)
     tag = f'{case["form"]}/{case["integrity"]}/{"-".join(map(str, cfg))}'
+    # a validator that takes longer than the Interest's lifetime: whether the (accepted) Interest is still handed on is not what
+    # the statement is about - that it is not handed on WITHOUT the accepting verdict is
+    overrun = cfg[0] in ('route', 'app') and isinstance(cfg[2], (int, float)) and cfg[2] >= case.get('int_lifetime', 4000)
     if exp['deliver']:
-        if len(hcalls) != 1:
+        if overrun and not hcalls:
+            pass
+        elif len(hcalls) != 1:
             out.append((pfx + ('plain-interest-not-delivered-once' if case['form'] == 'plain' else
                                'accepted-interest-not-delivered-once'),
                         f'{tag}: handler called {len(hcalls)} times, expected once'))
@@ -527,6 +533,18 @@ def gen_cases(tier, rng):
                 for target in ('/p/x', '/p/q/x'):
                     yield {'part': 'interest', 'front': front, 'form': form, 'integrity': integ, 'validator': cfg,
                            'target': target}
+    # --- parameters of zero length without a signature; validators that take longer than the Interest's own lifetime
+    for front, verdicts in (('v2', V2_VERDICTS), ('v1', V1_VERDICTS)):
+        for integ in ('ok', 'bad-digest'):
+            for cfg in [['none', None, None]] + [['route', v, lat] for v in verdicts for lat in (0, 10)]:
+                if front == 'v1' and cfg[0] == 'none':
+                    continue
+                yield {'part': 'interest', 'front': front, 'form': 'param-empty', 'integrity': integ, 'validator': cfg, 'target': '/p/x'}
+        for form in ('param', 'signed', 'signed-noparam'):
+            for v in verdicts:
+                for life, lat in ((20, 60), (20, 20), (1, 10), (50, 49)):
+                    yield {'part': 'interest', 'front': front, 'form': form, 'integrity': 'ok', 'validator': ['route', v, lat],
+                           'target': '/p/x', 'int_lifetime': life}
     # --- the same Interest cases on a prefix that was attached with another validator, detached and attached again
     for front, verdicts in (('v2', V2_VERDICTS), ('v1', V1_VERDICTS)):
         cfgs = [['route', v, 0] for v in verdicts]
